@@ -511,6 +511,9 @@ class Gen:
             src = "%s((let fm : %s = %s in fm %s) : Number)%s" % (TS, fty, m, v, TE)
             all_typed = True
         mutant = bool(bad)
+        # a wildcard at the top does not open the enum type of a payload: nested cases that only the wildcard
+        # (or a guarded arm) handles are safely rejected by the typechecker
+        self.plain = all(covered[h] == "unguarded" for h in tags if nested[h])
         # which defect of coverage does the chosen scrutinee hit
         if c in ("guarded",) or (c in ("missing", "open", "nested-missing") and wild == "guarded"):
             # no arm is unguarded: the match is partial whatever its argument (nothing to be exhaustive about)
